@@ -22,6 +22,7 @@ type c03Desc struct {
 	Reader   readMode    `json:"reader"`
 	NViol    int         `json:"violations_injected"`
 	Small    bool        `json:"small,omitempty"`
+	Long     bool        `json:"long,omitempty"`
 	Frames   []string    `json:"frames,omitempty"`
 }
 
@@ -35,7 +36,7 @@ func init() {
 		Gen:         c03Gen,
 		CaseTimeout: 120 * time.Second,
 		Require: func(tier string) map[string]int64 {
-			return map[string]int64{"messages_compared": 3000, "violations_injected_and_rejected": 500, "close_frames_received": 200, "pongs_compared": 300, "bfinal_messages": 50}
+			return map[string]int64{"messages_compared": 3000, "violations_injected_and_rejected": 500, "close_frames_received": 200, "pongs_compared": 300, "bfinal_messages": 50, "connections_with_more_than_400_messages_delivered": 10}
 		},
 		Assumptions: []string{
 			"wire.RefEndpoint (written from RFC 6455 5.2-5.5/7.4 and RFC 7692 6-7) is the specification of a receiver",
@@ -76,6 +77,17 @@ func c03Gen(tier string, seed int64) []fw.Case {
 			add(d)
 		}
 	}
+	// long histories: several hundred to a thousand small messages (and the control frames between them) on
+	// one connection, so that per-connection state goes through many rounds before the stream ends
+	for i := 0; i < tierPick(tier, 40, 400); i++ {
+		d := c03Desc{Kind: "script", Seed: rng.U64(), Long: true}
+		d.Role = bothRoles[i%2]
+		d.Params = allParams[(i/2)%len(allParams)]
+		d.NViol = []int{0, 0, 1}[rng.Intn(3)]
+		d.Reader = []readMode{{"Read", 0}, {"Reader", 64}, {"Reader", 4096}}[rng.Intn(3)]
+		d.Chunking = []string{"whole", "random", "per-frame"}[rng.Intn(3)]
+		add(d)
+	}
 	// short scripts: every single split offset
 	nSmall := tierPick(tier, 200, 4000)
 	for i := 0; i < nSmall; i++ {
@@ -111,6 +123,9 @@ func c03Gen(tier string, seed int64) []fw.Case {
 
 func c03Opts(d c03Desc) scriptOpts {
 	o := scriptOpts{MinMsgs: 1, MaxMsgs: 6, MaxSize: 70000, Big: true, Controls: true, CloseChance: 30, NViolations: d.NViol}
+	if d.Long {
+		o = scriptOpts{MinMsgs: 500, MaxMsgs: 1200, MaxSize: 300, Controls: true, CloseChance: 30, NViolations: d.NViol}
+	}
 	if d.Small {
 		o = scriptOpts{MinMsgs: 1, MaxMsgs: 2, MaxSize: 20, Controls: true, CloseChance: 30, NViolations: d.NViol, SmallOnly: true}
 	}
@@ -289,6 +304,9 @@ func c03Run(r *fw.R, d c03Desc) {
 		}
 	}
 	r.Count("messages_compared", int64(nm))
+	if d.Long && nm > 400 {
+		r.Count("connections_with_more_than_400_messages_delivered", 1)
+	}
 	r.Count("pongs_compared", int64(np))
 	r.Count("stream_bytes", int64(len(stream)))
 	if term.Kind == "fail" {
